@@ -3,12 +3,12 @@
 (* C09 -- the meta-models, instances and documents on which the SDKs are compared.                 *)
 (*                                                                                                 *)
 (* A *family* is a root class of a meta-model together with the value alphabets TLC takes the      *)
-(* full product of, and the base instances whose documents are mutated.  Alphabets sit at the      *)
+(* full product of (thorough; quick: covering sub-products), and the base instances whose documents are mutated.  Alphabets sit at the      *)
 (* boundaries: 0, -1, the 64-bit extremes, "", one character, non-ASCII, astral (one code point,   *)
 (* two UTF-16 units), a trailing line feed; None wherever Optional; lists of length 0..2; nesting  *)
 (* depth <= 2.                                                                                     *)
 (*                                                                                                 *)
-(* The parts (scalars, nested, cprims, constsets) are written separately and *merged* into one     *)
+(* The parts (scalars, nested, cprims, constsets, pairs) are written separately and *merged* into one     *)
 (* meta-model "main", because compiling a generated C++ SDK costs about a dozen translation units  *)
 (* whatever its size.  Two more meta-models isolate constructs whose generated Java does not       *)
 (* compile on the pinned tree: "constprims" (primitive constants) and "noenum" (no enumeration).    *)
@@ -24,6 +24,7 @@ cps_Scalar_thing == <<83,99,97,108,97,114,84,104,105,110,103>>
 cps_Nest_thing == <<78,101,115,116,84,104,105,110,103>>
 cps_Cprim_thing == <<67,112,114,105,109,84,104,105,110,103>>
 cps_Const_thing == <<67,111,110,115,116,84,104,105,110,103>>
+cps_Pair_thing == <<80,97,105,114,84,104,105,110,103>>
 cps_Plain_thing == <<80,108,97,105,110,84,104,105,110,103>>
 cps_Item == <<73,116,101,109>>
 cps_Shape == <<83,104,97,112,101>>
@@ -86,6 +87,8 @@ ScalarClasses == <<
          GridInvs(EProp("count"), "count") \o
          <<Inv("Code must match a[b-d]*c.", EMatch("matches_code", EProp("code"))),
            Inv("Flag requires weight.", EImpl(EFlag(EProp("flag")), EIsSome(EProp("weight")))),
+           Inv("Flag with weight needs a color.",
+               EImpl(EAnd(<<EFlag(EProp("flag")), EIsSome(EProp("weight"))>>), EIsSome(EProp("color")))),
            Inv("Weight must be either not set or at least -1.",
                EOr(<<EIsNone(EProp("weight")), ECmp("ge", EProp("weight"), ENeg(1))>>)),
            Inv("Color must be primary.", EImpl(EIsSome(EProp("color")), EIn(EProp("color"), "Primary_colors"))),
@@ -108,14 +111,23 @@ ScalarClasses == <<
 ScalarCounts(tier) == IF tier = "quick" THEN <<Neg(1), Pos(0), Pos(1), Int64Max>> ELSE <<Neg(1), Pos(0), Pos(1), Pos(2), Int64Max, Int64Min>>
 ScalarCodes(tier) == IF tier = "quick" THEN <<s_empty, s_ac, s_abdc, s_ac_lf>> ELSE <<s_empty, s_ac, s_abdc, s_ac_lf, s_aec, s_ab>>
 ScalarWeights(tier) == IF tier = "quick" THEN <<None, Neg(1), Pos(1)>> ELSE <<None, Neg(2), Neg(1), Pos(0), Pos(1)>>
-ScalarNotes(tier) == IF tier = "quick" THEN <<None, StrV(s_empty), StrV(s_a), StrV(s_astral), StrV(s_ab)>>
+ScalarNotes(tier) == IF tier = "quick" THEN <<None, StrV(s_empty), StrV(s_a), StrV(s_astral), StrV(s_ab), StrV(s_x)>>
                      ELSE <<None, StrV(s_empty), StrV(s_a), StrV(s_astral), StrV(s_ab), StrV(s_eacute), StrV(s_x), StrV(<<97,128512>>)>>
 ScalarColors == <<None, EnumV("Color", "Red"), EnumV("Color", "Green")>>
 
+ScalarThing(c, s, f, col, w, n) ==
+  InstV("Scalar_thing", [count |-> c, code |-> StrV(s), flag |-> BoolV(f), color |-> col, weight |-> w, some_note |-> n])
+\* thorough: the full product.  quick: two sub-products that together still vary every group of properties some
+\* invariant couples (count-weight-flag-color; code-note-flag-color), the rest held at a neutral value.
 ScalarInstances(tier) ==
-  {InstV("Scalar_thing", [count |-> c, code |-> StrV(s), flag |-> BoolV(f), color |-> col, weight |-> w, some_note |-> n]) :
-     c \in RangeOf(ScalarCounts(tier)), s \in RangeOf(ScalarCodes(tier)), f \in BOOLEAN,
-     col \in RangeOf(ScalarColors), w \in RangeOf(ScalarWeights(tier)), n \in RangeOf(ScalarNotes(tier))}
+  IF tier = "quick"
+  THEN {ScalarThing(c, s_ac, f, col, w, None) :
+          c \in RangeOf(ScalarCounts(tier)), f \in BOOLEAN, col \in RangeOf(ScalarColors), w \in RangeOf(ScalarWeights(tier))}
+       \cup {ScalarThing(Pos(1), s, f, col, Pos(1), n) :
+          s \in RangeOf(ScalarCodes(tier)), f \in BOOLEAN, col \in RangeOf(ScalarColors), n \in RangeOf(ScalarNotes(tier))}
+  ELSE {ScalarThing(c, s, f, col, w, n) :
+          c \in RangeOf(ScalarCounts(tier)), s \in RangeOf(ScalarCodes(tier)), f \in BOOLEAN,
+          col \in RangeOf(ScalarColors), w \in RangeOf(ScalarWeights(tier)), n \in RangeOf(ScalarNotes(tier))}
 
 \* the instances whose documents are mutated: everything set
 ScalarDocBases ==
@@ -165,9 +177,13 @@ ItemLists(maxLen) ==
   {None} \cup {ListV(<<>>)} \cup {ListV(<<a>>) : a \in RangeOf(NestedItems)}
   \cup (IF maxLen >= 2 THEN {ListV(<<a, b>>) : a \in RangeOf(NestedItems), b \in RangeOf(NestedItems)} ELSE {})
 ShapeLists == {None, ListV(<<NestedShapes[2], NestedShapes[4]>>)}
+NestThing(sh, it, its, shs) == InstV("Nest_thing", [shape |-> sh, item |-> it, items |-> its, more_shapes |-> shs])
 NestedInstances(tier) ==
-  {InstV("Nest_thing", [shape |-> sh, item |-> it, items |-> its, more_shapes |-> shs]) :
-     sh \in RangeOf(NestedShapes), it \in {None} \cup RangeOf(NestedItems), its \in ItemLists(2), shs \in ShapeLists}
+  IF tier = "quick"
+  THEN {NestThing(sh, it, None, shs) : sh \in RangeOf(NestedShapes), it \in {None} \cup RangeOf(NestedItems), shs \in ShapeLists}
+       \cup {NestThing(NestedShapes[1], it, its, None) : it \in {None, NestedItems[3]}, its \in ItemLists(2)}
+  ELSE {NestThing(sh, it, its, shs) :
+          sh \in RangeOf(NestedShapes), it \in {None} \cup RangeOf(NestedItems), its \in ItemLists(2), shs \in ShapeLists}
 NestedDocBases ==
   <<InstV("Nest_thing", [shape |-> NestedShapes[4], item |-> NestedItems[3], items |-> ListV(<<NestedItems[3], NestedItems[1]>>),
                          more_shapes |-> ListV(<<NestedShapes[1]>>)])>>
@@ -182,7 +198,7 @@ NestedDocBases ==
 CprimCprims == <<[name |-> "Name", base |-> "str", invs |-> <<Inv("Name must not be empty.", ECmp("ge", ELen(ESelf), ENat(1)))>>],
                  [name |-> "Short_name", base |-> "Name",
                   invs |-> <<Inv("Short name must have at most 2 characters.", ECmp("le", ELen(ESelf), ENat(2)))>>],
-                 [name |-> "Code", base |-> "str", invs |-> <<Inv("Code must match a[b-d]*c.", EMatch("matches_code", ESelf))>>],
+                 [name |-> "Code", base |-> "str", invs |-> <<Inv("Short code must match a[b-d]*c.", EMatch("matches_code", ESelf))>>],
                  [name |-> "Level", base |-> "int", invs |-> <<Inv("Level must be positive.", ECmp("gt", ESelf, ENat(0)))>>]>>
 CprimClasses == <<
      Cls("Named", cps_Named, TRUE, TRUE, <<>>,
@@ -196,16 +212,23 @@ CprimClasses == <<
 
 CprimNames == <<StrV(s_a), StrV(s_empty), StrV(s_x)>>
 CprimLevels(tier) == IF tier = "quick" THEN <<Pos(1), Pos(0)>> ELSE <<Pos(1), Pos(0), Int64Max>>
-CprimShorts(tier) == IF tier = "quick" THEN <<None, StrV(s_ab), StrV(s_abc), StrV(<<128512, 128512>>)>>
+CprimShorts(tier) == IF tier = "quick" THEN <<None, StrV(s_empty), StrV(s_abc), StrV(<<128512, 128512>>)>>
                      ELSE <<None, StrV(s_ab), StrV(s_empty), StrV(s_abc), StrV(<<128512, 128512>>)>>
-CprimCodes == <<None, StrV(s_ac), StrV(s_ab), StrV(s_ac_lf)>>
+CprimCodes(tier) == IF tier = "quick" THEN <<None, StrV(s_ac), StrV(s_ab), StrV(s_ac_lf)>> ELSE <<None, StrV(s_ac), StrV(s_ab), StrV(s_ac_lf)>>
 CprimDatas(tier) == IF tier = "quick" THEN <<None, BytesV(<<>>), BytesV(<<255, 1>>), BytesV(<<104, 105, 33, 63>>)>>
                     ELSE <<None, BytesV(<<>>), BytesV(<<0>>), BytesV(<<255, 1>>), BytesV(<<1, 2, 250>>), BytesV(<<104, 105, 33, 63>>)>>
-CprimRatios == <<None, FloatV("0.5"), FloatV("-2.5")>>
+CprimRatios(tier) == IF tier = "quick" THEN <<None, FloatV("0.5"), FloatV("-2.5")>> ELSE <<None, FloatV("0.5"), FloatV("-2.5")>>
+CprimThing(n, l, sn, cs, d, r) ==
+  InstV("Cprim_thing", [full_name |-> n, level |-> l, short_name |-> sn, short_code |-> cs, data |-> d, ratio |-> r])
 CprimInstances(tier) ==
-  {InstV("Cprim_thing", [full_name |-> n, level |-> l, short_name |-> sn, short_code |-> cs, data |-> d, ratio |-> r]) :
-     n \in RangeOf(CprimNames), l \in RangeOf(CprimLevels(tier)), sn \in RangeOf(CprimShorts(tier)), cs \in RangeOf(CprimCodes),
-     d \in RangeOf(CprimDatas(tier)), r \in RangeOf(CprimRatios)}
+  IF tier = "quick"
+  THEN {CprimThing(n, l, None, cs, None, r) :
+          n \in RangeOf(CprimNames), l \in RangeOf(CprimLevels(tier)), cs \in RangeOf(CprimCodes(tier)), r \in RangeOf(CprimRatios(tier))}
+       \cup {CprimThing(StrV(s_a), l, sn, None, d, None) :
+          l \in RangeOf(CprimLevels(tier)), sn \in RangeOf(CprimShorts(tier)), d \in RangeOf(CprimDatas(tier))}
+  ELSE {CprimThing(n, l, sn, cs, d, r) :
+          n \in RangeOf(CprimNames), l \in RangeOf(CprimLevels(tier)), sn \in RangeOf(CprimShorts(tier)), cs \in RangeOf(CprimCodes(tier)),
+          d \in RangeOf(CprimDatas(tier)), r \in RangeOf(CprimRatios(tier))}
 CprimDocBases ==
   <<InstV("Cprim_thing", [full_name |-> StrV(s_a), level |-> Pos(1), short_name |-> StrV(s_ab), short_code |-> StrV(s_abdc),
                           data |-> BytesV(<<255, 1>>), ratio |-> FloatV("0.5")])>>
@@ -232,6 +255,25 @@ ConstSetInstances(tier) ==
 ConstSetDocBases == <<InstV("Const_thing", [color |-> EnumV("Color", "Odd_one"), word |-> StrV(s_quote)])>>
 
 (***************************************************************************************************)
+(* Part "pairs": comparisons between two properties (two integers, two strings), with equal values *)
+(* that are distinct objects in languages with boxed numbers and reference equality.               *)
+(***************************************************************************************************)
+PairClasses == <<
+     Cls("Pair_thing", cps_Pair_thing, FALSE, FALSE, <<>>,
+         <<P("low", "low", TInt), P("high", "high", TInt), P("first", "first", TStr), P("second", "second", TStr)>>,
+         <<Inv("Low must not exceed high.", ECmp("le", EProp("low"), EProp("high"))),
+           Inv("Low must differ from high.", ECmp("ne", EProp("low"), EProp("high"))),
+           Inv("First must equal second.", ECmp("eq", EProp("first"), EProp("second"))),
+           Inv("Low must be zero when first is empty.",
+               EOr(<<ECmp("ne", EProp("first"), EStr(s_empty)), ECmp("eq", EProp("low"), ENat(0))>>))>>)>>
+PairInts == <<Pos(0), Pos(1000), Int64Max>>
+PairStrs == <<s_empty, s_a, s_ab>>
+PairInstances(tier) ==
+  {InstV("Pair_thing", [low |-> l, high |-> h, first |-> StrV(a), second |-> StrV(b)]) :
+     l \in RangeOf(PairInts), h \in RangeOf(PairInts), a \in RangeOf(PairStrs), b \in RangeOf(PairStrs)}
+PairDocBases == <<>>
+
+(***************************************************************************************************)
 (* The merged meta-model                                                                           *)
 (***************************************************************************************************)
 Main ==
@@ -240,7 +282,7 @@ Main ==
    cprims |-> CprimCprims,
    patterns |-> ScalarPatterns,
    consts |-> ScalarConsts \o ConstSetConsts,
-   classes |-> ScalarClasses \o NestedClasses \o CprimClasses \o ConstSetClasses]
+   classes |-> ScalarClasses \o NestedClasses \o CprimClasses \o ConstSetClasses \o PairClasses]
 
 (***************************************************************************************************)
 (* Meta-model "constprims": constants of every primitive kind with boundary values.  (A bytearray  *)
@@ -289,15 +331,16 @@ Families(tier) ==
     Fam("nested", "main", "Nest_thing", NestedInstances(tier), NestedDocBases, IF tier = "quick" THEN 2 ELSE 3),
     Fam("cprims", "main", "Cprim_thing", CprimInstances(tier), CprimDocBases, 1),
     Fam("constsets", "main", "Const_thing", ConstSetInstances(tier), ConstSetDocBases, 1),
+    Fam("pairs", "main", "Pair_thing", PairInstances(tier), PairDocBases, 1),
     Fam("constprims", "constprims", "Plain_thing", PlainInstances, <<>>, 1),
     Fam("noenum", "noenum", "Plain_thing", NoEnumInstances, <<>>, 1)>>
 \* family name -> <<model name, root class>> without building the instance sets
 FamilyModel(n) ==
-  CASE n \in {"scalars", "nested", "cprims", "constsets"} -> "main"
+  CASE n \in {"scalars", "nested", "cprims", "constsets", "pairs"} -> "main"
     [] n = "constprims" -> "constprims" [] n = "noenum" -> "noenum"
 FamilyRoot(n) ==
   CASE n = "scalars" -> "Scalar_thing" [] n = "nested" -> "Nest_thing" [] n = "cprims" -> "Cprim_thing"
-    [] n = "constsets" -> "Const_thing" [] OTHER -> "Plain_thing"
+    [] n = "constsets" -> "Const_thing" [] n = "pairs" -> "Pair_thing" [] OTHER -> "Plain_thing"
 \* the targets built per meta-model: C++ costs a dozen translation units per meta-model, javac a second
 Targets(tier, modelName) ==
   CASE modelName = "main" -> <<"cpp", "java">>
